@@ -535,6 +535,26 @@ func (r *run) opDeliver(k int) {
 	if err != nil {
 		r.viol("C09", "release-refused", fmt.Sprintf("ReleasePlayers(%s,%v) returned %v", rel.table, rel.players, err))
 	}
+	// C20: the players handed back by a broken table are each queued for
+	// (or already seated at) another table
+	if t := r.tables[rel.table]; t != nil && t.broken && r.on("C20") {
+		where := map[string]bool{}
+		for _, p := range r.queue() {
+			where[p] = true
+		}
+		for _, id := range r.order {
+			if !r.tables[id].broken {
+				for _, p := range r.tables[id].members {
+					where[p] = true
+				}
+			}
+		}
+		for _, p := range rel.players {
+			if !where[p] {
+				r.viol("C20", "player-of-broken-table-stranded", fmt.Sprintf("%s, released by broken table %s, is neither queued nor seated at another table", p, rel.table))
+			}
+		}
+	}
 	r.trans("deliver", "ok")
 }
 
